@@ -63,6 +63,56 @@ fn main() {
     unsafe {
         libsodium_sys::sodium_init();
     }
+    // RUNNER_THREADS=K (K > 1): all requests are read first and then answered by K threads AT THE SAME TIME (request i by thread
+    // i mod K, started together); with RUNNER_REPEAT=R every request is executed R times in a row on its thread and all R answers
+    // must be equal.  What the answers are compared with (the single-threaded run) is the caller's business.
+    let threads: usize = std::env::var("RUNNER_THREADS").ok().and_then(|v| v.parse().ok()).unwrap_or(1);
+    if threads > 1 {
+        let repeat: usize = std::env::var("RUNNER_REPEAT").ok().and_then(|v| v.parse().ok()).unwrap_or(1).max(1);
+        let lines: Vec<String> = std::io::stdin().lock().lines().filter_map(|l| l.ok()).collect();
+        let lines = std::sync::Arc::new(lines);
+        let barrier = std::sync::Arc::new(std::sync::Barrier::new(threads));
+        let mut handles = vec![];
+        for t in 0..threads {
+            let (lines, barrier) = (lines.clone(), barrier.clone());
+            handles.push(std::thread::Builder::new().stack_size(64 << 20).spawn(move || {
+                let mut outv: Vec<(usize, String)> = vec![];
+                barrier.wait();
+                for (i, line) in lines.iter().enumerate() {
+                    if i % threads != t {
+                        continue;
+                    }
+                    let toks: Vec<&str> = line.split_ascii_whitespace().collect();
+                    if toks.len() < 2 {
+                        continue;
+                    }
+                    let mut first: Option<(String, String)> = None;
+                    let mut answer = None;
+                    for _ in 0..repeat {
+                        let r = catch_unwind(AssertUnwindSafe(|| dispatch(toks[1], &toks[2..]))).unwrap_or_else(|_| ("panic".to_string(), "n/a".to_string()));
+                        match &first {
+                            None => first = Some(r),
+                            Some(f) => if *f != r && answer.is_none() {
+                                answer = Some((format!("mismatch the same request answered differently while other threads were running: {} / {}", f.0, r.0), f.1.clone()));
+                            },
+                        }
+                    }
+                    let (a, b) = answer.or(first).unwrap();
+                    outv.push((i, format!("{}\t{}\t{}\talloc=0", toks[0], a, b)));
+                }
+                outv
+            }).unwrap());
+        }
+        let mut all: Vec<(usize, String)> = handles.into_iter().flat_map(|h| h.join().unwrap_or_default()).collect();
+        all.sort();
+        let stdout = std::io::stdout();
+        let mut out = std::io::BufWriter::new(stdout.lock());
+        for (_, l) in all {
+            let _ = writeln!(out, "{}", l);
+        }
+        let _ = out.flush();
+        return;
+    }
     let stdin = std::io::stdin();
     let stdout = std::io::stdout();
     let mut out = std::io::BufWriter::new(stdout.lock());
